@@ -399,6 +399,12 @@ func (env *SpecEnv) eval(e Expr) *Value {
 		}
 	case *ECond:
 		c := env.asBool(env.nopol().eval(n.C))
+		if c.S == "true" {
+			return env.eval(n.A) // decided at translation time (e.g. a case analysis on a literal argument)
+		}
+		if c.S == "false" {
+			return env.eval(n.B)
+		}
 		a, b := env.eval(n.A), env.eval(n.B)
 		return env.ite(c, a, b)
 	case *EBin:
